@@ -2,8 +2,10 @@ package main
 
 import (
 	"fmt"
+	"os"
 	"math/big"
 	"go/constant"
+	"go/token"
 	"go/types"
 	"sort"
 	"strings"
@@ -501,7 +503,7 @@ func (env *Env) modLoc(m *ModLoc) frameLoc {
 		if !ok {
 			specFail("modifies %s: pointer expected", m.Src)
 		}
-		return frameLoc{v.t[0], v.t[1], c.I("(+ %s %d)", v.t[1], cells(pt.Elem()))}
+		return frameLoc{obj: v.t[0], lo: v.t[1], hi: c.I("(+ %s %d)", v.t[1], cells(pt.Elem())), typ: pt.Elem()}
 	case "elems", "backing":
 		v := env.eval(m.Expr)
 		st, ok := v.typ.Underlying().(*types.Slice)
@@ -512,7 +514,7 @@ func (env *Env) modLoc(m *ModLoc) frameLoc {
 		if m.Kind == "backing" {
 			n = v.t[3]
 		}
-		return frameLoc{v.t[0], v.t[1], c.I("(+ %s (* %s %d))", v.t[1], n, cells(st.Elem()))}
+		return frameLoc{obj: v.t[0], lo: v.t[1], hi: c.I("(+ %s (* %s %d))", v.t[1], n, cells(st.Elem())), typ: st.Elem()}
 	case "cell":
 		if m.Expr.Op != "sel" {
 			specFail("modifies %s: field selector expected", m.Src)
@@ -529,7 +531,7 @@ func (env *Env) modLoc(m *ModLoc) frameLoc {
 		}
 		off, ft := pathOffset(st, path)
 		lo := c.I("(+ %s %d)", base.t[1], off)
-		return frameLoc{base.t[0], lo, c.I("(+ %s %d)", lo, cells(ft))}
+		return frameLoc{obj: base.t[0], lo: lo, hi: c.I("(+ %s %d)", lo, cells(ft)), typ: pt.Elem()}
 	}
 	specFail("modifies %s", m.Src)
 	return frameLoc{}
@@ -671,6 +673,11 @@ func (e *Exec) loopSpec(b *ssa.BasicBlock) *LoopSpec {
 		return nil
 	}
 	return e.spec.Loops[e.loopOrd[b]]
+}
+
+type loopKey struct {
+	b    *ssa.BasicBlock
+	lane string
 }
 
 type loopInfo struct {
@@ -892,7 +899,7 @@ func (e *Exec) backEdge(from, to *ssa.BasicBlock, cond string, s *State) {
 		}
 		if ls.Decreases != nil {
 			m := env.evalInt(ls.Decreases)
-			li := e.loops[to]
+			li := e.loopInfoFor(to, s.lane)
 			c.oblige(e.obl("decreases", fmt.Sprintf("loop%d", ord), nil), pc, c.B("(and (<= 0 %s) (< %s %s))", li.measure, m, li.measure))
 		}
 	}
@@ -1129,6 +1136,17 @@ func (e *Exec) execRegion(order []*ssa.BasicBlock, incoming map[*ssa.BasicBlock]
 				continue
 			case *ssa.If:
 				cond := e.intToBool(e.val(s, x.Cond)[0])
+				if e == e.root && e.spec != nil && e.spec.SplitPaths && unrolling == nil && e.root.nlanes < 48 && !endsInReturn(b.Succs[0]) && !endsInReturn(b.Succs[1]) {
+					// path-wise execution: the two sides are never merged again
+					base := s.lane
+					s.lane = fmt.Sprintf("%s/b%dt", base, b.Index)
+					flow(b, b.Succs[0], cond, s)
+					s.lane = fmt.Sprintf("%s/b%df", base, b.Index)
+					flow(b, b.Succs[1], c.not(cond), s)
+					s.lane = base
+					e.root.nlanes++
+					continue
+				}
 				flow(b, b.Succs[0], cond, s)
 				flow(b, b.Succs[1], c.not(cond), s)
 			case *ssa.Jump:
@@ -1182,12 +1200,20 @@ func (e *Exec) loopHead(b *ssa.BasicBlock, s *State) {
 	}
 	li := &loopInfo{preA: s.A}
 	e.loops[b] = li
+	if e.loopsByLane == nil {
+		e.loopsByLane = map[loopKey]*loopInfo{}
+	}
+	e.loopsByLane[loopKey{b, s.lane}] = li
 	keep := e.unwrittenPrivate(s, body)
 	preHeaps := map[string]string{}
 	for k, v := range s.heaps {
 		preHeaps[k] = v
 	}
-	e.havocHeaps(s, mods.kinds, mods.allocs)
+	narrowed, ok := e.narrowFrame(s, body)
+	if os.Getenv("VERIF_DEBUG") != "" {
+		fmt.Fprintf(os.Stderr, "narrowFrame %s loop@%s: ok=%v %v (frame %v)\n", e.name, e.p.fset.Position(b.Instrs[0].Pos()), ok, narrowed, e.root.frame)
+	}
+	e.havocHeaps(s, mods.kinds, mods.allocs, narrowed, ok)
 	// locals whose address never escapes and that the loop does not write keep their contents
 	for _, a := range keep {
 		obj := s.regs[a][0]
@@ -1238,4 +1264,175 @@ func (e *Exec) tailOnly(call *ssa.Call) bool {
 		}
 	}
 	return len(e.defers) == 0
+}
+
+// loopInfoFor: the bookkeeping of the loop head visit this state descends from
+// (lanes opened inside the loop body extend the head's lane).
+func (e *Exec) loopInfoFor(b *ssa.BasicBlock, lane string) *loopInfo {
+	for {
+		if li, ok := e.loopsByLane[loopKey{b, lane}]; ok {
+			return li
+		}
+		i := strings.LastIndex(lane, "/")
+		if i < 0 {
+			break
+		}
+		lane = lane[:i]
+	}
+	return e.loops[b]
+}
+
+// narrowFrame: which part of the root's modifies clause a loop can actually
+// write. Stores through a field path rooted at a value defined before the loop
+// name their cells exactly; every other write in the loop goes through a slice
+// element or a value computed in the loop, whose object carries the tag of its
+// static element type - it cannot be a frame region whose objects carry other
+// tags (Go type safety). Loops that call non-builtin functions are not narrowed.
+func (e *Exec) narrowFrame(s *State, body map[*ssa.BasicBlock]bool) ([]frameLoc, bool) {
+	r := e.root
+	if r.frameAll || len(r.frame) == 0 {
+		return nil, false
+	}
+	c := e.c
+	type region struct{ obj, lo, hi string }
+	var known []region
+	var unknown []types.Type
+	addUnknown := func(t types.Type) { unknown = append(unknown, t) }
+	for b := range body {
+		for _, in := range b.Instrs {
+			switch x := in.(type) {
+			case *ssa.Store:
+				if a, ok := x.Addr.(*ssa.Alloc); ok && isScalarLocal(a) {
+					continue
+				}
+				// walk a FieldAddr chain down to its root
+				off := 0
+				var cur ssa.Value = x.Addr
+				okChain := true
+				for {
+					fa, isFA := cur.(*ssa.FieldAddr)
+					if !isFA {
+						break
+					}
+					st := fa.X.Type().Underlying().(*types.Pointer).Elem().Underlying().(*types.Struct)
+					off += fieldOffset(st, fa.Field)
+					cur = fa.X
+				}
+				rootVal, have := s.regs[cur]
+				if instr, isInstr := cur.(ssa.Instruction); isInstr && body[instr.Block()] {
+					have = false // computed inside the loop
+					// ... unless it is a load of a local the loop never assigns (NaiveForm spills parameters)
+					if ld, ok := cur.(*ssa.UnOp); ok && ld.Op == token.MUL {
+						if a, ok := ld.X.(*ssa.Alloc); ok && isScalarLocal(a) && !storedIn(body, a) {
+							if v, ok := s.vars[a]; ok {
+								rootVal, have = v, true
+							}
+						}
+					}
+				}
+				if _, isAlloc := cur.(*ssa.Alloc); isAlloc {
+					continue // a local object of this function: never a frame region of older objects... unless it is one, which its freshness excludes
+				}
+				if !have || rootVal == nil || len(rootVal) < 2 || cur == x.Addr {
+					okChain = false
+				}
+				if okChain {
+					lo := c.add(rootVal[1], fmt.Sprint(off))
+					known = append(known, region{rootVal[0], lo, c.add(lo, fmt.Sprint(cells(x.Val.Type())))})
+				} else {
+					// element of a slice / pointer computed in the loop: tag of the pointee
+					pt := x.Addr.Type().Underlying().(*types.Pointer).Elem()
+					if ia, ok := x.Addr.(*ssa.IndexAddr); ok {
+						switch xt := ia.X.Type().Underlying().(type) {
+						case *types.Slice:
+							pt = xt.Elem()
+						case *types.Pointer:
+							pt = xt.Elem().Underlying().(*types.Array).Elem()
+						}
+					} else {
+						if os.Getenv("VERIF_DEBUG") != "" {
+							fmt.Fprintf(os.Stderr, "narrowFrame: unknown store %v (addr %v, root %v have=%v)\n", x, x.Addr, cur, have)
+						}
+						return nil, false
+					}
+					addUnknown(pt)
+				}
+			case *ssa.Call:
+				cc := x.Common()
+				if bi, ok := cc.Value.(*ssa.Builtin); ok {
+					if bi.Name() == "append" || bi.Name() == "copy" {
+						addUnknown(cc.Args[0].Type().Underlying().(*types.Slice).Elem())
+					}
+					continue
+				}
+				if os.Getenv("VERIF_DEBUG") != "" {
+					fmt.Fprintf(os.Stderr, "narrowFrame: call %v\n", x)
+				}
+				return nil, false
+			case *ssa.Defer, *ssa.Go:
+				return nil, false
+			}
+		}
+	}
+	var out []frameLoc
+	for _, f := range r.frame {
+		if f.typ == nil {
+			return nil, false
+		}
+		// can an unknown-base write (an element of type E of some slice) land in this
+		// region? only if the region's type sits inside an E, or holds an array of E by value
+		hit := false
+		for _, E := range unknown {
+			if containsType(E, f.typ, 0) || containsArrayOf(f.typ, E, 0) {
+				hit = true
+			}
+		}
+		if hit {
+			out = append(out, f)
+			continue
+		}
+		// only the exactly named cells of this object
+		for _, k := range known {
+			switch c.cmpAddr(k.obj, f.obj) {
+			case 1:
+				out = append(out, frameLoc{obj: f.obj, lo: k.lo, hi: k.hi, typ: f.typ})
+			case 0:
+				out = append(out, frameLoc{obj: k.obj, lo: k.lo, hi: k.hi, typ: f.typ})
+			}
+		}
+	}
+	return out, true
+}
+
+func containsArrayOf(s types.Type, t types.Type, depth int) bool {
+	if depth > 6 {
+		return false
+	}
+	switch u := s.Underlying().(type) {
+	case *types.Struct:
+		for i := 0; i < u.NumFields(); i++ {
+			if containsArrayOf(u.Field(i).Type(), t, depth+1) {
+				return true
+			}
+		}
+	case *types.Array:
+		return containsType(u.Elem(), t, depth+1) || containsArrayOf(u.Elem(), t, depth+1)
+	}
+	return false
+}
+
+func storedIn(body map[*ssa.BasicBlock]bool, a *ssa.Alloc) bool {
+	for b := range body {
+		for _, in := range b.Instrs {
+			if st, ok := in.(*ssa.Store); ok && st.Addr == a {
+				return true
+			}
+		}
+	}
+	return false
+}
+
+func endsInReturn(b *ssa.BasicBlock) bool {
+	_, ok := b.Instrs[len(b.Instrs)-1].(*ssa.Return)
+	return ok
 }
